@@ -301,9 +301,13 @@ def rows_match_fn(text):
     sig, body = extract_fn(text, "rows_match")
     b = re.sub(r"//[^\n]*", "", body).replace("\r", "").strip()[1:-1].strip()
     b = vlib.canon_bindings(sig, b, ["lhs", "lhs_row", "rhs", "rhs_row", "common_cols"], RM_LOCALS)
-    m = re.match(r"(\w+)\.iter\(\)\.(all|any)\(\|\((\w+),\s*(\w+)\)\|\s*\{", b)
+    m = re.search(r"(\w+)\.iter\(\)\.(all|any)\(\|\((\w+),\s*(\w+)\)\|\s*\{", b)
     if not m:
         raise AnchorLost("rows_match: expected `common_cols.iter().all(|(lhs_col, rhs_col)| { .. })`")
+    # statements before the iterator expression (e.g. an early `return`) are kept verbatim
+    pre = b[:m.start()]
+    if pre.strip() and (not pre.rstrip().endswith(("}", ";")) or re.search(r"\b(data|iter|map|for|while|loop)\b", pre)):
+        raise AnchorLost("rows_match: statements before the iterator expression are outside the transcription rules")
     e = match_brace(b, m.end() - 1)
     if b[e:].strip() != ")":
         raise AnchorLost("rows_match: statements after the iterator expression")
@@ -325,7 +329,7 @@ def rows_match_fn(text):
         inv = "    invariant forall|j: int| 0 <= j < k_ ==> !(" + EQ % ("j", "j") + "),"
     loop = "  for k_ in 0..%s.len()\n%s\n  {\n    let (%s, %s) = (&%s[k_].0, &%s[k_].1);\n    %s;\n    %s\n" % (xs, inv, a_, b_, xs, xs, ";\n    ".join(stmts), tail)
     return ("fn rows_match(lhs: &MechTable, lhs_row: usize, rhs: &MechTable, rhs_row: usize, %s: &Vec<(u64, u64)>) -> (res: bool)\n"
-            "  ensures res == (forall|k: int| 0 <= k < %s@.len() ==> %s),\n{\n" % (xs, xs, EQ % ("k", "k")) + loop + "\n}\n")
+            "  ensures res == (forall|k: int| 0 <= k < %s@.len() ==> %s),\n{\n" % (xs, xs, EQ % ("k", "k")) + pre + "\n" + loop + "\n}\n")
 
 
 # ---------------------------------------------------------------------------------------------------------------------
